@@ -156,11 +156,15 @@ def render_lines(prog, spelling=None, lead=0):
         for t, s_ in optl:
             add(t, s_)
         add("}")
-    if prog.get("metas"):
-        add("MetaData M {")
-        for j, e in enumerate(prog["metas"], 1):
-            add(render_meta_entry(e, sp), ("meta", j))
-        add("}")
+    def metablock():
+        if prog.get("metas"):
+            add("MetaData M {")
+            for j, e in enumerate(prog["metas"], 1):
+                add(render_meta_entry(e, sp), ("meta", j))
+            add("}")
+    # the order of the top-level definitions is the author's choice: "metalast" writes the MetaData block BELOW the packets
+    if not sp.get("metalast"):
+        metablock()
     for j, p in enumerate(prog["pkts"], 1):
         add("%spacket %s {" % ("root " if p["root"] else "", p["name"]), ("pkt", j))
         for i, f in enumerate(p["fields"], 1):
@@ -175,6 +179,8 @@ def render_lines(prog, spelling=None, lead=0):
                     sites[("pair", j, i, q)] = ln
                     ln += len(pr["lits"]) if s_.get("expand") else 1
         add("}")
+    if sp.get("metalast"):
+        metablock()
     return "\n".join(lines) + "\n", sites
 
 
